@@ -27,7 +27,7 @@ BUDGET = {
 }
 STEP_NAMES = ['a', 'b', 'c', 'd']
 PRED_NAMES = ['p', 'q', 'r']
-RET_VALUES = [None, None, None, None, None, None, None, None, 0, 1, 'x', {'__tc__': {}}, {'__tc__': {}}]
+RET_VALUES = [None, None, None, None, None, None, None, None, 0, 1, 'x', {'__tc__': {}}, {'__tc__': {}}, {'__mapping__': {}}, {'__mapping__': {'k': 1}}]
 
 
 # ---------------------------------------------------------------------------------------------
@@ -59,6 +59,8 @@ def enumerate_cases(tier, scope):
         {'rets': {}, 'tocontext': {'a': [{'ka': ['done', 1]}, {'ka': ['done', 2]}], 'b': [{'kb': ['done', 2]}]}, 'preds': {'p': [True, True, False], 'q': [True, False], 'r': [True]}},
         {'rets': {}, 'preds': {'p': [True, False], 'q': [False, True], 'r': [False]}, 'pred_as': {'p': 'list', 'q': 'str', 'r': 'tuple'}},
         {'rets': {}, 'preds': {'p': [True, True, False], 'q': [False], 'r': [True]}, 'pred_as': {'p': 'int', 'q': 'none', 'r': 'list'}},
+        {'rets': {'a': [None, {'__mapping__': {}}], 'b': [{'__mapping__': {'k': 1}}]}, 'preds': {'p': [True, True, False], 'q': [True], 'r': [True]}},
+        {'rets': {'b': [None, 2]}, 'preds': {'p': [True, True, False], 'q': [True, False], 'r': [True]}, 'module_steps': True},
     ]
     if scope == 'medium':
         instrs = instrs[:: max(1, len(instrs) // 1500)]
@@ -108,6 +110,8 @@ def _cases(draw, tier):
             seq = [True] + seq  # bias: loops and branches get entered
         preds[name] = seq
     behaviour = {'rets': rets, 'preds': preds}
+    if draw(st.integers(0, 3)) == 0:
+        behaviour['module_steps'] = True
     if draw(st.integers(0, 2)) == 0:
         behaviour['pred_as'] = {name: draw(st.sampled_from(['list', 'str', 'tuple', 'int', 'none'])) for name in draw(st.lists(st.sampled_from(PRED_NAMES), min_size=1, max_size=3, unique=True))}
     if draw(st.integers(0, 2)) == 0:
@@ -162,6 +166,10 @@ def execute(case):
         else:
             got = views['result']
             ok = got == ['ok', exp_result[1]]
+            if not ok and isinstance(exp_result[1], dict) and '__mapping__' in exp_result[1] and got[0] == 'ok':
+                from collections.abc import Mapping
+
+                ok = isinstance(got[1], Mapping) and not isinstance(got[1], dict) and dict(got[1]) == exp_result[1]['__mapping__'] or got[1] == exp_result[1]['__mapping__']
             if not ok and last_tc and got[0] == 'ok' and isinstance(got[1], dict):
                 ok = True  # fell off the outline right after a ToContext: ambiguous, accepted
             if not ok:
